@@ -60,7 +60,15 @@ func (e *c16Env) newJob(gated bool) *c16Job {
 }
 
 func (e *c16Env) send(j *c16Job) {
-	e.pool.Send(context.Background(), verif.PoolEvent{Caller: fmt.Sprintf("job%d", j.id), Fn: func(ctx context.Context) error {
+	ctx := context.Background()
+	if j.id%3 == 1 {
+		// the caller's context is cancelled right after Send returned (a request-scoped context):
+		// the job was accepted and must run all the same
+		c, cancel := context.WithCancel(ctx)
+		ctx = c
+		defer cancel()
+	}
+	e.pool.Send(ctx, verif.PoolEvent{Caller: fmt.Sprintf("job%d", j.id), Fn: func(ctx context.Context) error {
 		e.running.Add(1)
 		j.runs.Add(1)
 		j.started.Store(e.now())
@@ -434,12 +442,20 @@ func c16Order(tier string, seed int64, idx int, scratch string) rt.CaseResult {
 		e.pool.Stop()
 		e.pool.Stop()
 	case "send-during-stop":
-		e.pool.Run(bg)
-		par(func() {
-			for i := 0; i < 20; i++ {
-				send()
+		// busy worker, full channel, many senders timing out together, Stop a moment later
+		for round := 0; round < 120; round++ {
+			rt.Beat()
+			e.pool.Run(bg)
+			blocker := e.newJob(true)
+			e.send(blocker)
+			var fs []func()
+			for i := 0; i < 24; i++ {
+				fs = append(fs, send)
 			}
-		}, func() { time.Sleep(time.Duration(rng.Intn(100)) * time.Microsecond); e.pool.Stop() })
+			fs = append(fs, func() { time.Sleep(time.Duration(rng.Intn(60)) * time.Microsecond); e.pool.Stop() })
+			par(fs...)
+			e.pool.Stop()
+		}
 	case "stop-racing-runs":
 		for round := 0; round < 150; round++ {
 			rt.Beat()
